@@ -5,7 +5,7 @@ CONSTANTS
   Wins = {1}
   ConnWin = 2
   MaxStreamss = {1}
-  NDg = 1
+  NDg = 0
   DgCap = 1
   AllowReset = FALSE
   AllowStop = TRUE
